@@ -1,5 +1,6 @@
 import L4.Codec.Layout
 import L4.Matchers.Winbox
+import L4.Proofs.Winbox
 /-!
 # C18 — Wire-message codecs are exact inverses
 
@@ -60,6 +61,18 @@ example : decode tpkt [3, 0, 0, 19, 7] = none := by decide
 last chunk; in the current model the same input is rejected -/
 theorem winbox_trailing_bytes_rejected :
     (Winbox.fromBytes ([40, 6, 97, 97, 97, 97, 97, 97, 0] ++ List.replicate 32 9 ++ [1, 0x83, 0x71])).isOk = false := by
+  decide +kernel
+
+/-- **WinBox `MessageAuth` (variable length, chunked)**: parsing any byte string the parser accepts and serialising the
+result reproduces the same bytes — proved for inputs of up to two chunks (513 bytes; `Match` never hands more than 293
+bytes to the parser). Named `_partial` because inputs of three and more chunks, and the other direction (`FromBytes ∘
+ToBytes` on well-formed messages), are covered by the `codec` differential and its oracle only. -/
+theorem winbox_enc_dec_partial (src : Bytes) (m : Winbox.Msg) (hL : src.length ≤ 513)
+    (h : Winbox.fromBytes src = .ok m) : Winbox.toBytes m = src :=
+  Winbox.toBytes_fromBytes src m hL h
+
+/-- non-vacuity: a 40-byte message is accepted, so the theorem speaks about it -/
+example : (Winbox.fromBytes ([38, 6, 116, 111, 109, 115, 0] ++ List.replicate 32 9 ++ [1])).isOk = true := by
   decide +kernel
 
 end L4.C18
